@@ -46,19 +46,19 @@ structure Gen (k0 : String) (rest : List String) (rows : List Row) : Prop where
   outOfIn : ∀ (i : Nat) (r : Row), rows[i]? = some r → r.out = outbound r.inb r.task.pub
   stable : ∀ (i : Nat) (r : Row), rows[i]? = some r → StablePub2 k0 rest r.task.pub
   ancLt : ∀ (i : Nat) (r : Row), rows[i]? = some r → ∀ q ∈ r.anc, q < i
-  one : ∀ (i : Nat) (r : Row), rows[i]? = some r → 1 ≤ ver r.inb.vers (keyOf k0 rest) →
+  one : ∀ (i : Nat) (r : Row), rows[i]? = some r → 1 ≤ ver r.inb.vers (keyOf (esc k0) rest) →
     ∃ q ∈ r.anc, ∃ rq : Row, rows[q]? = some rq ∧ PublishesLeaf k0 rest rq.task
-  two : ∀ (i : Nat) (r : Row), rows[i]? = some r → 2 ≤ ver r.inb.vers (keyOf k0 rest) →
+  two : ∀ (i : Nat) (r : Row), rows[i]? = some r → 2 ≤ ver r.inb.vers (keyOf (esc k0) rest) →
     ∃ q1 ∈ r.anc, ∃ q2 ∈ r.anc, ∃ r1 r2 : Row, rows[q1]? = some r1 ∧ rows[q2]? = some r2 ∧
       PublishesLeaf k0 rest r1.task ∧ PublishesLeaf k0 rest r2.task ∧ q1 ∈ r2.anc
 
 /-- a publication bumps the version of the path by one exactly when it publishes the leaf -/
 theorem ver_outbound_gen (k0 : String) (rest : List String) (c : Ctx) (pub : Dict) (hp : StablePub2 k0 rest pub) :
-    (getPath pub k0 rest = none → ver (outbound c pub).vers (keyOf k0 rest) = ver c.vers (keyOf k0 rest)) ∧
-    (getPath pub k0 rest ≠ none → ver (outbound c pub).vers (keyOf k0 rest) = ver c.vers (keyOf k0 rest) + 1) := by
+    (getPath pub k0 rest = none → ver (outbound c pub).vers (keyOf (esc k0) rest) = ver c.vers (keyOf (esc k0) rest)) ∧
+    (getPath pub k0 rest ≠ none → ver (outbound c pub).vers (keyOf (esc k0) rest) = ver c.vers (keyOf (esc k0) rest) + 1) := by
   obtain ⟨hp1, hp2, hp3, hp4⟩ := hp
-  have hver : ver (outbound c pub).vers (keyOf k0 rest) =
-      ver c.vers (keyOf k0 rest) + (leafKeysKv none pub).count (keyOf k0 rest) := by
+  have hver : ver (outbound c pub).vers (keyOf (esc k0) rest) =
+      ver c.vers (keyOf (esc k0) rest) + (leafKeysKv none pub).count (keyOf (esc k0) rest) := by
     unfold outbound; exact ver_bump _ _ _
   constructor
   · intro hg
@@ -73,9 +73,9 @@ theorem ver_outbound_gen (k0 : String) (rest : List String) (c : Ctx) (pub : Dic
       | some x =>
         rw [getPath_of_get?, hgp] at hx
         have hlp := (SpinePath.leafPath rest v x hp2 hx).1
-        have hm : keyOf k0 rest ∈ leafKeysKv none pub :=
-          leafKeysKv_mem_of_get? none _ pub k0 v hgp (by rw [path_none]; exact leafKey_mem rest k0 v hlp)
-        have : 0 < (leafKeysKv none pub).count (keyOf k0 rest) := List.count_pos_iff.mpr hm
+        have hm : keyOf (esc k0) rest ∈ leafKeysKv none pub :=
+          leafKeysKv_mem_of_get? none _ pub k0 v hgp (by rw [path_none]; exact leafKey_mem rest (esc k0) v hlp)
+        have : 0 < (leafKeysKv none pub).count (keyOf (esc k0) rest) := List.count_pos_iff.mpr hm
         rw [hver]; omega
 
 theorem gen_nil (k0 : String) (rest : List String) : Gen k0 rest [] := by
@@ -114,13 +114,13 @@ theorem gen_step (k0 : String) (rest : List String) (rows : List Row) (t : Task)
       omega
   have hold : ∀ q, q < rows.length → (rows ++ [nr])[q]? = rows[q]? := fun q hq => List.getElem?_append_left hq
   -- the version seen is 0 or the outbound version of a parent
-  have hatt := ver_upstream_attained (keyOf k0 rest) _ hukOut
+  have hatt := ver_upstream_attained (keyOf (esc k0) rest) _ hukOut
   rw [← hni] at hatt
   -- what a parent's outbound version says
   have hparent : ∀ pr ∈ parentRows rows t, ∀ p, p ∈ t.parents → rows[p]? = some pr →
-      (1 ≤ ver pr.out.vers (keyOf k0 rest) →
+      (1 ≤ ver pr.out.vers (keyOf (esc k0) rest) →
         ∃ q ∈ nr.anc, ∃ rq : Row, rows[q]? = some rq ∧ PublishesLeaf k0 rest rq.task) ∧
-      (2 ≤ ver pr.out.vers (keyOf k0 rest) →
+      (2 ≤ ver pr.out.vers (keyOf (esc k0) rest) →
         ∃ q1 ∈ nr.anc, ∃ q2 ∈ nr.anc, ∃ r1 r2 : Row, rows[q1]? = some r1 ∧ rows[q2]? = some r2 ∧
           PublishesLeaf k0 rest r1.task ∧ PublishesLeaf k0 rest r2.task ∧ q1 ∈ r2.anc) := by
     intro pr hpr p hpp hp
@@ -144,7 +144,7 @@ theorem gen_step (k0 : String) (rest : List String) (rows : List Row) (t : Task)
       · intro h2
         obtain ⟨q, hq, rq, e1, e2⟩ := g.one p pr hp (by omega)
         exact ⟨q, hup q hq, p, hpin, rq, pr, e1, hp, e2, hpl, hq⟩
-  have hOne : 1 ≤ ver nr.inb.vers (keyOf k0 rest) →
+  have hOne : 1 ≤ ver nr.inb.vers (keyOf (esc k0) rest) →
       ∃ q ∈ nr.anc, ∃ rq : Row, rows[q]? = some rq ∧ PublishesLeaf k0 rest rq.task := by
     intro h1
     rcases hatt with z | ⟨c, hc, hcv⟩
@@ -152,7 +152,7 @@ theorem gen_step (k0 : String) (rest : List String) (rows : List Row) (t : Task)
     · obtain ⟨pr, hpr, rfl⟩ := List.mem_map.mp hc
       obtain ⟨p, hpp, hp⟩ := (mem_parentRows rows t pr).mp hpr
       exact (hparent pr hpr p hpp hp).1 (by rw [hcv]; exact h1)
-  have hTwo : 2 ≤ ver nr.inb.vers (keyOf k0 rest) →
+  have hTwo : 2 ≤ ver nr.inb.vers (keyOf (esc k0) rest) →
       ∃ q1 ∈ nr.anc, ∃ q2 ∈ nr.anc, ∃ r1 r2 : Row, rows[q1]? = some r1 ∧ rows[q2]? = some r2 ∧
         PublishesLeaf k0 rest r1.task ∧ PublishesLeaf k0 rest r2.task ∧ q1 ∈ r2.anc := by
     intro h2
@@ -222,7 +222,7 @@ theorem dropsLow_of_one_generation (k0 : String) (rest : List String) (h : List 
   have tie := tied_run h
   apply Decidable.byContradiction
   intro hn
-  have h2 : 2 ≤ ver r.inb.vers (keyOf k0 rest) := by omega
+  have h2 : 2 ≤ ver r.inb.vers (keyOf (esc k0) rest) := by omega
   obtain ⟨q1, hq1, q2, hq2, r1, r2, e1, e2, e3, e4, e5⟩ := g.two i r hi h2
   exact hd i r.task (tie.task i r hi) hdr
     ⟨q1, q2, r1.task, r2.task, (tie.anc i r hi q1).mp hq1, (tie.anc i r hi q2).mp hq2,
